@@ -435,7 +435,90 @@ func tooMany() bool {
 }
 
 func oracle13(ep *endpoint, res []opRes, exp expect, exact bool, rp replay13) {
-	fail := func(sig, what string) { finding("oracle", "C13", sig, what, rp) }
+	if sig, what := check13(ep, res, exp, exact, true); sig != "" {
+		finding("oracle", "C13", sig, what, rp)
+	}
+}
+
+// the handler configurations other than "OnMessage only" (which the model covers).  What the code promises on the pinned
+// tree, and what is demanded here:
+//   both   (OnMessage + OnDataFrame): everything as with OnMessage alone (verdict, deliveries, replies); in addition every
+//          non-empty data frame in front of the frame that ends the connection reaches OnDataFrame, in order, with the
+//          type of its MESSAGE, its FIN bit and its raw payload (frames of a message that later turns out invalid have been
+//          handed over already: streaming)
+//   frame  (OnDataFrame only) / none: messages are never assembled, so the checks that need a whole message (UTF-8 of a text
+//          message, inflating) are not made by the code; demanded: a sequence RFC 6455 allows is ACCEPTED (frames delivered,
+//          connection open) - in particular text fragments that cut a multi-byte character; everything the frame header and
+//          the control frames decide (reserved bits/opcodes, sequencing, control > 125 or fragmented, close codes, close
+//          reason UTF-8, pings answered, close echoed) as always.  An invalid-UTF-8 / non-inflating message may be accepted
+//          or failed (both the strict and the frame-level reference are admissible), nothing reaches OnMessage.
+func oracle13h(ep *endpoint, res []opRes, frames []rawFrame, encomp bool, exact bool, rp replay13) {
+	mode := ep.cfg.Handlers
+	strict := rfcRefOpt(frames, encomp, true)
+	sig, what := "", ""
+	if mode == "both" {
+		sig, what = check13(ep, res, strict, exact, true)
+		if sig == "" {
+			sig, what = checkFrames(ep, strict, exact)
+		}
+	} else {
+		loose := rfcRefOpt(frames, encomp, false)
+		sig, what = check13(ep, res, loose, exact, false)
+		if sig == "" && mode == "frame" {
+			sig, what = checkFrames(ep, loose, exact)
+		}
+		if sig != "" && (strict.End != loose.End || strict.EndAt != loose.EndAt) {
+			// the whole-message checks make the difference: the strict verdict is admissible too
+			s2, w2 := check13(ep, res, strict, exact, false)
+			if s2 == "" && mode == "frame" {
+				s2, w2 = checkFrames(ep, strict, exact)
+			}
+			if s2 == "" {
+				rep.Stat("13h:whole-message-check-made-without-OnMessage")
+				sig, what = "", ""
+			} else {
+				_ = w2
+			}
+		}
+		if sig == "" && len(ep.msgs) != 0 {
+			sig, what = "message-delivered-without-handler", fmt.Sprintf("%d messages reached OnMessage although none was installed", len(ep.msgs))
+		}
+	}
+	if sig != "" {
+		finding("oracle", "C13", sig, "handlers="+mode+": "+what, rp)
+	}
+}
+
+func checkFrames(ep *endpoint, exp expect, exact bool) (string, string) {
+	want := exp.DFrames
+	if exp.EndAt >= 0 {
+		n := 0
+		for n < len(want) && exp.DFrameAt[n] < exp.EndAt {
+			n++
+		}
+		want = want[:n]
+	}
+	got := ep.frames
+	for i, w := range want {
+		if i >= len(got) {
+			return "dataframe-not-delivered", fmt.Sprintf("data frame %d (message type %d, FIN=%v, %d bytes) was not handed to OnDataFrame (%d frames delivered)", i, w.T, w.Fin, len(w.P), len(got))
+		}
+		if got[i].T != w.T || got[i].Fin != w.Fin || !bytes.Equal(got[i].P, w.P) {
+			return "dataframe-differs", fmt.Sprintf("OnDataFrame call %d: type %d FIN=%v %d bytes, expected type %d FIN=%v %d bytes", i, got[i].T, got[i].Fin, len(got[i].P), w.T, w.Fin, len(w.P))
+		}
+	}
+	if len(got) > len(want) && (exp.End == "open" || (exact && len(got) > len(want)+1)) {
+		return "dataframe-unexpected", fmt.Sprintf("%d OnDataFrame calls, expected %d", len(got), len(want))
+	}
+	return "", ""
+}
+
+func check13(ep *endpoint, res []opRes, exp expect, exact bool, wantMsgs bool) (rsig, rwhat string) {
+	fail := func(sig, what string) {
+		if rsig == "" {
+			rsig, rwhat = sig, what
+		}
+	}
 	failed := ep.mc.closed
 	perr := ""
 	for _, r := range res {
@@ -475,6 +558,9 @@ func oracle13(ep *endpoint, res []opRes, exp expect, exact bool, rp replay13) {
 	}
 	// deliveries
 	got := ep.msgs
+	if !wantMsgs {
+		got, exp.Deliver, exp.Poison = nil, nil, nil
+	}
 	if exp.Poison != nil {
 		for _, m := range got[minInt(len(got), len(exp.Deliver)):] {
 			if m.T == exp.Poison.T && bytes.Equal(m.P, exp.Poison.P) {
